@@ -881,8 +881,10 @@ pub fn gen_mixed(rng: &mut Rng, with_conflicts: bool) -> AG {
 }
 
 fn gen_mixed_raw(rng: &mut Rng, with_conflicts: bool) -> AG {
-    let w: [u32; 7] = if with_conflicts { [30, 15, 15, 10, 15, 8, 7] } else { [40, 20, 25, 15, 0, 0, 0] };
+    let w: [u32; 9] = if with_conflicts { [28, 14, 14, 8, 15, 8, 7, 3, 3] } else { [36, 18, 22, 12, 0, 0, 0, 6, 6] };
     match rng.weighted(&w) {
+        7 => gen_gc_seed(rng),
+        8 => gen_lookahead_square(rng),
         0 => gen_random(rng, &GenOpts::default(), "random-small"),
         1 => gen_nullable(rng),
         2 => gen_recursive(rng),
@@ -955,4 +957,119 @@ pub fn permute(g: &AG, rng: &mut Rng) -> AG {
     out.implicit_tokens = g.implicit_tokens.iter().map(|t| tinv[*t]).collect();
     out.epp = g.epp.iter().map(|(t, s)| (tinv[*t], s.clone())).collect();
     out
+}
+
+/// "Lookahead square": n contexts (distinct prefix tokens) x m rules that all derive the same
+/// handle, with the token following each rule chosen per (context, rule). States reached after
+/// the handle share one core with m items and differ only in lookaheads, so whether Pager may
+/// merge them depends on weak compatibility. Within a context the m lookaheads are distinct,
+/// so the canonical automaton is conflict-free.
+pub fn gen_lookahead_square(rng: &mut Rng) -> AG {
+    let mut g = AG::new(AKind::OriginalGeneric, "lookahead-square");
+    let s = g.rule("S");
+    let n = rng.range(2, 4);
+    let m = rng.range(2, 4);
+    let pool = rng.range(m, m + 2);
+    let handle_len = rng.range(1, 2);
+    let nullable_tail = rng.chance(1, 4);
+    let rules: Vec<usize> = (0..m).map(|i| g.rule(RULENAMES[i + 1])).collect();
+    let tail = if nullable_tail { Some(g.rule("Z")) } else { None };
+    let h = g.tok("h");
+    for c in 0..n {
+        let pre = g.tok(&format!("p{c}"));
+        let mut las: Vec<usize> = (0..pool).collect();
+        rng.shuffle(&mut las);
+        for (i, &r) in rules.iter().enumerate() {
+            if rng.chance(1, 6) && i > 0 {
+                continue; // not every rule is used in every context
+            }
+            let la = g.tok(&format!("l{}", las[i]));
+            let mut syms = vec![ASym::T(pre), ASym::R(r)];
+            if let Some(z) = tail {
+                syms.push(ASym::R(z));
+            }
+            syms.push(ASym::T(la));
+            g.add_prod(s, syms);
+        }
+    }
+    for &r in &rules {
+        g.add_prod(r, vec![ASym::T(h); handle_len]);
+    }
+    if let Some(z) = tail {
+        let zt = g.tok("z");
+        g.add_prod(z, vec![]);
+        g.add_prod(z, vec![ASym::T(zt)]);
+    }
+    if rng.chance(1, 3) {
+        // recursion around the whole thing
+        let w = g.rule("W0");
+        let x = g.tok("x");
+        g.add_prod(w, vec![ASym::R(w), ASym::T(x), ASym::R(s)]);
+        g.add_prod(w, vec![ASym::R(s)]);
+        g.start = w;
+    }
+    g.compact();
+    g
+}
+
+/// Search (bounded) for a small grammar on which Pager's algorithm re-queues states and its
+/// final garbage collection drops at least `min_dropped` states (observed through the lrtable
+/// verification counters). `lr1_only`: additionally require the harness's canonical LR(1)
+/// automaton to be conflict-free. Returns the grammar and the number of states dropped.
+pub fn search_gc_grammar(rng: &mut Rng, tries: usize, min_dropped: u64, lr1_only: bool) -> Option<(AG, u64)> {
+    for _ in 0..tries {
+        let o = GenOpts { max_rules: 5, max_tokens: 4, max_alts: 3, max_syms: 4, empty_pct: 20, reduced: true };
+        let mut g = gen_random(rng, &o, "gc-triggering");
+        g.compact();
+        let Ok(b) = build_grm(&g) else { continue };
+        lrtable::verif::reset();
+        let r = crate::frame::guarded(|| b.table());
+        let (_, _, dropped) = lrtable::verif::counters();
+        if dropped < min_dropped || !matches!(r, Ok(Ok(_))) {
+            continue;
+        }
+        if crate::refs::has_derivation_cycle(&g) {
+            continue;
+        }
+        if lr1_only {
+            match crate::refs::canonical_lr1(&g, 600) {
+                Some(c) if c.conflicts == 0 => {}
+                _ => continue,
+            }
+        }
+        return Some((g, dropped));
+    }
+    None
+}
+
+/// Conflict-free LR(1) grammars (found by `search_gc_grammar`) on which Pager's algorithm
+/// re-processes states so that its final garbage collection has states to drop. Used as seeds:
+/// permutations of them mostly keep that behaviour.
+pub const GC_SEEDS: [&str; 8] = [
+    "S: A A | 'a' | 'b' A; A: 'b' S 'c';",
+    "S: 'd' 'b' 'a' 'd' | 'd' A; A: B 'd' S 'd'; B: 'd' 'a' B 'b' | 'a' 'a' A | S;",
+    "S: 'c' 'a' S 'c' | B A 'a' | 'c' 'a' B; A: 'b' |; B: 'c' 'b' | 'b';",
+    "S: 'c' 'c' 'c' | 'a' S | 'c' A | 'a' B; A: 'a' 'c' 'a' S; B: A S;",
+    "S: 'd' 'c' | 'c' A; A: 'a' 'd' | 'c' B; B: 'b' B | 'c' S 'd' 'a' | S A A;",
+    "S: 'c' 'b' B | B 'a' 'c' 'b' | 'a' A; A: 'a' S 'd' | B | 'd' B | 'c' C; B: 'c' 'a' 'b'; C: S 'd' C B | B;",
+    "S: 'a' A 'b' | A 'a' 'b' 'a' | 'b'; A: 'a' 'a' A 'a' | 'b';",
+    "R0: R2 'b' 'a' | | R1 R2; R1: 'c' 'c' 'a'; R2: R1 R0 'a';",
+];
+
+pub fn gen_gc_seed(rng: &mut Rng) -> AG {
+    // two thirds of the time use one of the searched-for seeds on which gc drops >= 2 states
+    let extra: Vec<&str> = include_str!("gc_seeds.txt").lines().filter(|l| !l.trim().is_empty()).collect();
+    let spec: &str = if !extra.is_empty() && rng.chance(2, 3) { *rng.pick(&extra[..]) } else { *rng.pick(&GC_SEEDS[..]) };
+    let mut g = AG::from_spec(AKind::OriginalGeneric, "gc-seed", spec);
+    if rng.chance(1, 3) {
+        // embed in a little context
+        let old = g.start;
+        let w = g.rule("W0");
+        let x = g.tok("x");
+        g.add_prod(w, vec![ASym::T(x), ASym::R(old), ASym::T(x)]);
+        g.add_prod(w, vec![ASym::R(old)]);
+        g.start = w;
+    }
+    g.compact();
+    g
 }
